@@ -90,7 +90,8 @@ CStop(c) == LET c1 == [c EXCEPT !.stopn = @ + 1] IN
 \* ServeConn returned; done as in CReply
 CRet(c, done) ==
   LET c1 == [c EXCEPT !.retd = TRUE] IN
-  IF c.stopn # 1 THEN Flag(c1, "stop-not-called-once")
+  IF ~c.fault THEN Flag(c1, "serving-ended-without-cause")     \* nothing failed, nobody disconnected, no context was cancelled
+  ELSE IF c.stopn # 1 THEN Flag(c1, "stop-not-called-once")
   ELSE IF \E i \in c.entered \ c.exited : i \notin done THEN Flag(c1, "inflight-not-cancelled")
   ELSE c1
 
